@@ -26,4 +26,18 @@ def filterLeavesUpd (rooted : Option Bool) (acc : Acc) (sup : Bool) (t : T) : Op
 def pruneSubtreeUpd (rooted : Option Bool) (i : Nat) (sup : Bool) (t : T) : T × List (Nat × Int) :=
   reencode rooted sup (pruneSubtree i sup t)
 
+/-- `prune_leaves_without_taxa(recursive=True, update_bipartitions=True, …)` -/
+def pruneLeavesWithoutTaxaUpd (rooted : Option Bool) (sup : Bool) (t : T) : Option (T × List (Nat × Int)) :=
+  filterLeavesUpd rooted hasTaxon sup t
+
+/-- `prune_taxa_with_labels(labels, update_bipartitions=True, …)` -/
+def pruneWithLabelsUpd (rooted : Option Bool) (cs : Bool) (ns : Ns) (labels : List String) (sup : Bool) (t : T) :
+    Option (T × List (Nat × Int)) :=
+  (pruneWithLabels cs ns labels sup t).map (reencode rooted sup)
+
+/-- `retain_taxa_with_labels(labels, update_bipartitions=True, …)` -/
+def retainWithLabelsUpd (rooted : Option Bool) (cs : Bool) (ns : Ns) (labels : List String) (sup : Bool) (t : T) :
+    Option (T × List (Nat × Int)) :=
+  (retainWithLabels cs ns labels sup t).map (reencode rooted sup)
+
 end DendroModel.C08
